@@ -324,6 +324,8 @@ def rand_schedule(rng, cfg, force=None):
     policy = rng.choice(force.get("policies", ["free", "free", "jitter", "serial"]))
     if rng.random() < force.get("thread_delay", 0.25):
         cfg["thread_delay"] = {"p": rng.choice([0.3, 1.0]), "max": 0.02, "seed": rng.randrange(1 << 30)}
+    if rng.random() < force.get("db_delay", 0.25):
+        cfg["db_delay"] = {"p": rng.choice([0.1, 0.4]), "max": 0.003, "seed": rng.randrange(1 << 30)}
     return cfg, policy, rng.randrange(1 << 30)
 
 
